@@ -105,6 +105,135 @@ def run(chk):
                 chk.violation("input", f"resolved path {core.unesc(a)!r} keeps a dot segment", base=k[0], rel=k[1])
     chk.bump("oracle:resolve_vs_reference", len(keys))
     chk.exhaustive = True
+    group_stream(chk)
+
+
+# ---------------------------------------------------------------------------------------------------------
+# multi-file groups: linking, template lookup order, dependency queries, insertion order
+FILE_PATHS = ["a", "b", "x/c", "x/y/d", "x/e"]
+
+
+def spellings(rng, frm, to, suffix):
+    """ways to write the path `to` in a file registered as `frm`"""
+    out = ["/" + to, "/./" + to, "/x/../" + to]
+    fd, td = frm.split("/")[:-1], to.split("/")
+    rel = [".."] * len(fd) + td
+    out.append("/".join(rel))
+    out.append("./" + "/".join(rel))
+    if fd:
+        out.append("/".join([".."] * len(fd) + ["zz", ".."] + td))
+    # common prefix form
+    k = 0
+    while k < len(fd) and k < len(td) - 1 and fd[k] == td[k]:
+        k += 1
+    out.append("/".join([".."] * (len(fd) - k) + td[k:]))
+    s_ = rng.choice(out)
+    return s_ + (suffix if rng.chance(1, 3) else "")
+
+
+def text_of(tree):
+    out = []
+    for n in tree:
+        if isinstance(n, dict):
+            if "text" in n:
+                out.append(n["text"])
+            out.append(text_of(n.get("children", [])))
+    return "".join(out)
+
+
+def group_stream(chk):
+    quick = chk.tier != "thorough"
+    rng = chk.rng.fork("c13-groups")
+    cases = []
+    for i in range(150 if quick else 3000):
+        r = rng.fork(i)
+        files = {}
+        k = 2 + r.below(len(FILE_PATHS) - 1)
+        paths = FILE_PATHS[:]
+        order = [paths[(i + j * 2) % len(paths)] for j in range(len(paths))]
+        chosen = []
+        for p in order:
+            if p not in chosen and len(chosen) < k:
+                chosen.append(p)
+        defs = {p: [t for t in ("t", "u", "v") if r.chance(1, 2)] for p in chosen}
+        scripts = {"s1": "exports.id='S:s1'", "x/s2": "exports.id='S:x/s2'"}
+        main = chosen[0]
+        for p in chosen[1:]:
+            files[p] = "".join('<template name="%s">[%s:%s]</template>' % (t, p, t) for t in defs[p]) + "(%s:main)" % p
+        # the main file
+        imports, body, exp_deps, exp_sdeps = [], [], [], []
+        nimp = 1 + r.below(4)
+        targets = [r.choice(chosen[1:]) for _ in range(nimp)]
+        if r.chance(1, 2) and len(targets) >= 2:
+            targets.append(targets[0])          # the same file imported again, after another one
+        src = ""
+        for t in targets:
+            src += '<import src="%s"/>' % spellings(r, main, t, ".wxml")
+            exp_deps.append(t)
+        local = [t for t in ("t", "u") if r.chance(1, 3)]
+        src += "".join('<template name="%s">[%s:%s]</template>' % (t, main, t) for t in local)
+        expected = ""
+        for t in ("t", "u", "v"):
+            src += '<template is="%s"/>' % t
+            if t in local:
+                expected += "[%s:%s]" % (main, t)
+            else:
+                for f in reversed(targets):
+                    if t in defs[f]:
+                        expected += "[%s:%s]" % (f, t)
+                        break
+        inc = r.choice(chosen[1:])
+        src += '<include src="%s"/>' % spellings(r, main, inc, ".wxml")
+        exp_deps.append(inc)
+        expected += "(%s:main)" % inc
+        sp = r.choice(sorted(scripts))
+        src += '<wxs module="sm" src="%s"/>{{sm.id}}' % spellings(r, main, sp, ".wxs")
+        exp_sdeps.append(sp)
+        expected += "S:" + sp
+        files[main] = src
+        cases.append((main, files, scripts, expected, sorted(exp_deps), sorted(exp_sdeps), r))
+    reqs, meta = [], []
+    for ci, (main, files, scripts, expected, deps, sdeps, r) in enumerate(cases):
+        items = sorted(files.items())
+        for variant in range(3):
+            fl = list(items)
+            if variant == 1:
+                fl.reverse()
+            elif variant == 2:
+                j = r.below(len(fl))
+                fl = fl[j:] + fl[:j]
+            reqs.append(core.req("group", json.dumps({"files": [[p, s] for p, s in fl], "scripts": [[p, s] for p, s in sorted(scripts.items())]})))
+            meta.append((ci, variant))
+    answers = core.run_harness(reqs)
+    rreqs, rmeta = [], []
+    nb = 0
+    for (ci, variant), a in zip(meta, answers):
+        main, files, scripts, expected, deps, sdeps, r = cases[ci]
+        if a.startswith("PANIC"):
+            chk.violation("input", f"compiler panicked on a multi-file group: {a[:200]}", files=files)
+            continue
+        o = json.loads(a)
+        got_deps = sorted(o["deps"].get(main, []))
+        got_sdeps = sorted(o["script_deps"].get(main, []))
+        if got_deps != deps or got_sdeps != sdeps:
+            nb += 1
+            if nb <= 4:
+                chk.violation("input", f"dependencies of {main!r}: direct {got_deps} / scripts {got_sdeps}, the references resolve to {deps} / {sdeps}",
+                              files=files, main=main, expected=[deps, sdeps], got=[got_deps, got_sdeps])
+        rreqs.append({"op": "render", "gen_groups": o["gen_groups"], "path": main, "steps": [{"create": {}}]})
+        rmeta.append((ci, variant))
+    outs = core.run_node(rreqs)
+    for (ci, variant), o in zip(rmeta, outs):
+        main, files, scripts, expected, deps, sdeps, r = cases[ci]
+        chk.case(("group", ci, variant), nontrivial=True, sample=dict(main=main, files=files) if ci < 2 and variant == 0 else None)
+        got = text_of(o["snapshots"][0]["tree"]) if o.get("snapshots") else "ERROR " + str(o.get("error"))
+        if got != expected:
+            nb += 1
+            if nb <= 4:
+                chk.violation("input", f"group rendering of {main!r} gives {got!r}, the references resolve to {expected!r} (insertion order variant {variant})",
+                              files=files, main=main, expected=expected, got=got)
+    chk.bump("oracle:groups", len(cases))
+    chk.bump("oracle:group-mismatches", nb)
 
 
 def replay(chk, path):
